@@ -4,6 +4,59 @@ ENGINE = "automata"
 ASSUMPTIONS = ["oracle: verified product-exploration equivalence (dfa_equiv) between the automaton before and after pruning, reachable-state count, every table cell against next() of the implementation's own automaton"]
 
 
+def count_states(stmts):
+    """number of states the builder creates = number of distinct names mentioned"""
+    names = set()
+    for o in stmts:
+        t = o.split()
+        if t[0] == "new" or t[0] == "fin":
+            names.add(t[1])
+        elif t[0] == "add":
+            names.add(t[1]); names.add(t[4])
+        elif t[0] == "def":
+            names.add(t[1]); names.add(t[2])
+    return len(names)
+
+
+def random_sets(rng, pts, k):
+    """valid character sets over the critical points: singletons, ranges between two critical points
+    (inside one label, straddling a boundary, inside the complement), the whole alphabet"""
+    out = []
+    cand = sorted(set(pts + [p + 1 for p in pts if p < MAXC] + [p - 1 for p in pts if p > 0] + [0, MAXC]))
+    for _ in range(k):
+        r = rng.random()
+        if r < 0.3:
+            a = rng.choice(cand); out.append((a, a))
+        elif r < 0.9:
+            a, b = sorted(rng.sample(cand, 2)); out.append((a, b))
+        else:
+            out.append((0, MAXC))
+    return out
+
+
+def csnext_queries(rng, stmts, nst):
+    """char_set_next on the labels as written (Ok), on labels widened by one (Err when the neighbour
+    differs), and on random sets, for random states"""
+    labels = []
+    for o in stmts:
+        t = o.split()
+        if t[0] == "add":
+            labels.append((int(t[2]), int(t[3])))
+    qs = []
+    for _ in range(rng.randint(3, 6)):
+        s = rng.randrange(nst)
+        r = rng.random()
+        if labels and r < 0.35:
+            a, b = rng.choice(labels)
+        elif labels and r < 0.6:
+            a, b = rng.choice(labels)
+            a, b = max(0, a - rng.choice([0, 1])), min(MAXC, b + rng.choice([0, 1]))
+        else:
+            a, b = random_sets(rng, PTS, 1)[0]
+        qs.append("csnext %d %d %d" % (s, a, b))
+    return qs
+
+
 def generate(rng, tier):
     n = 2500 if tier == "quick" else 50000
     cases = []
@@ -13,13 +66,22 @@ def generate(rng, tier):
         r0 = rng.random()
         st = tiny_alphabet_spec(rng, k) if r0 < 0.12 else (planted_equiv(rng, k, pts) if r0 < 0.5 else complete_spec(rng, k, pts, full_cover_prob=0.3)[0])
         probes = sorted(set(pts + [p + 1 for p in pts if p < MAXC]))
-        st += ["buildu", "table", "alphabet", "edges", "finals", "prune", "table", "nextall %d %s" % (len(probes), " ".join(map(str, probes))),
+        nst = count_states(st)
+        info_probes = sorted(set(rng.sample(probes, min(len(probes), 6)) + [0, MAXC]))
+        stateinfo = "stateinfo %d %s" % (len(info_probes), " ".join(map(str, info_probes)))
+        st += ["buildu", "table", "alphabet", "edges", "finals", stateinfo]
+        st += csnext_queries(rng, st, nst)
+        st += ["prune", "table", "nextall %d %s" % (len(probes), " ".join(map(str, probes))),
                "acceptsall 3 %s" % ("3 %d %d %d" % tuple(rng.sample(pts, 3)))]
+        if rng.random() < 0.5:
+            st += [stateinfo]
+        # state 0 always survives pruning (it may not be the initial state after minimize, but it exists)
+        st += ["csnext 0 %d %d" % cs for cs in random_sets(rng, pts, 2)]
         if rng.random() < 0.35:
             # pruning an automaton whose initial state is no longer state 0 (after minimize renumbered it)
-            st += ["minimize", "prune", "acceptsall 3 %s" % ("3 %d %d %d" % tuple(rng.sample(pts, 3))), "finals"]
+            st += ["minimize", "prune", "acceptsall 3 %s" % ("3 %d %d %d" % tuple(rng.sample(pts, 3))), "finals", stateinfo]
         cases.append(" ; ".join(st))
-    info = {"rule": "automata from builder histories (1-8 states + planted copies, unreachable components incl. ones with smaller ids than reachable states, dense colliding non-default rows, with / without defaults); observed: every cell of the compiled table, alphabet, edges, finals, the pruned automaton (kept set, renumbering) and its table; non-trivial = at least 3 states",
+    info = {"rule": "automata from builder histories (1-8 states + planted copies, unreachable components incl. ones with smaller ids than reachable states, dense colliding non-default rows, with / without defaults); observed: every cell of the compiled table, alphabet, edges, finals, every accessor of Automaton / State (stateinfo: initial_state, state, states, num_states, num_final_states, final_states, default_successor, class_next on every listed class, num_successors, has_default_successor, valid_class_id, char_classes, char_picks, char_ranges, class_of_char and char_maps_to_default on probe characters), char_set_next on labels / widened labels / random sets (Ok and AmbiguousCharSet), the pruned automaton (kept set, renumbering) and its table; non-trivial = at least 3 states",
             "distribution": {"cases": n}}
     return cases, info
 
